@@ -12,6 +12,28 @@
 (* ordering property a plain comparison.  With Void = TRUE every item is   *)
 (* the same token 0 and the queue degenerates to a counting semaphore      *)
 (* (primitives::std_queue<void>).                                          *)
+(*                                                                         *)
+(* Item vocabulary.  push(args...) is emplace-style: the item is           *)
+(* T(args...), whichever branch the push takes (stored: _queue.emplace,    *)
+(* queue.h:166; hand-over to a parked pop: `T item(args...)`, queue.h:154, *)
+(* moved into the promise).  The n-th push is made through the argument    *)
+(* form FormOf(n) (one / two / no construction arguments, a ready-made     *)
+(* item as lvalue, const lvalue, rvalue; the forms in use are the constant *)
+(* Forms, their rotation over the pushes is `shift`, chosen by Init), and  *)
+(* the item it contributes is Val(n): a record of the identity n and of    *)
+(* HOW a direct T(args...) builds it (which constructor, second argument). *)
+(* With Obj = TRUE the replay uses a class type that records exactly that  *)
+(* (and has an initializer-list constructor, so T{args...} is a different  *)
+(* object than T(args...)); with Obj = FALSE the item is a plain int.       *)
+(* What sits in the queue or in a pop future is always Val(n) - ValueIntact.*)
+(*                                                                         *)
+(* Containers.  Queue / CoroQueue template parameters: std_queue           *)
+(* (unbounded) or primitives::single_item_queue (one slot, queue.h:65-93,  *)
+(* what generator_aggregator uses for its waiters): SingleItem /           *)
+(* SingleWaiter.  An element arriving at an occupied slot is REFUSED:      *)
+(* single_item_queue::emplace throws (queue.h:77) inside the critical      *)
+(* section of push() / pop(), the call fails with std::runtime_error and   *)
+(* nothing else changes (PushRefused, PopRefused).                         *)
 (***************************************************************************)
 EXTENDS Naturals, Sequences, FiniteSets, TLC
 
@@ -22,7 +44,16 @@ CONSTANTS Threads,      \* client threads
           MaxSize,      \* bound on number of size()/empty() calls
           Void,         \* TRUE: queue<void>
           AllowDestroy, \* TRUE: the queue may be destroyed while pops are parked
-          AllowThrow    \* TRUE: a push may fail because the item's constructor throws
+          AllowThrow,   \* TRUE: a push may fail because the item's constructor throws
+          Obj,          \* TRUE: class item type recording its construction; FALSE: int (ignored when Void)
+          Forms,        \* the push() argument forms in use (subset of the range of FormOrder)
+          SingleItem,   \* TRUE: Queue = primitives::single_item_queue (one slot for items)
+          SingleWaiter, \* TRUE: CoroQueue = primitives::single_item_queue (one slot for parked pops)
+          MaxRefuse     \* bound on the number of refused calls (element arriving at an occupied slot)
+
+ASSUME /\ Void \in BOOLEAN /\ Obj \in BOOLEAN /\ SingleItem \in BOOLEAN /\ SingleWaiter \in BOOLEAN
+       /\ Void => ~SingleItem          \* single_item_queue<void> does not exist (std::optional<void>)
+       /\ MaxRefuse \in Nat
 
 VARIABLES items,     \* _queue: sequence of values
           waiters,   \* _awaiters: sequence of pop ids whose promise is parked
@@ -30,11 +61,30 @@ VARIABLES items,     \* _queue: sequence of values
           pc,        \* per thread: "idle" | "push_resolve" | "unblock_resolve"
           hold,      \* per thread: the promise taken out of _awaiters, to be resolved outside the lock
           ret,       \* per thread: result of its last completed push()/unblock_pop()
-          npush, npop, nunb, nsize, destroyed
+          npush, npop, nunb, nsize, destroyed,
+          nref,      \* number of refused calls so far
+          shift      \* rotation of the argument forms over the pushes (fixed by Init)
 
-vars == <<items, waiters, fut, pc, hold, ret, npush, npop, nunb, nsize, destroyed>>
+vars == <<items, waiters, fut, pc, hold, ret, npush, npop, nunb, nsize, destroyed, nref, shift>>
 
-NoHold == [pop |-> 0, v |-> 0]
+(* the public argument forms of push(): push(n) | push(n, n+50) | push() [the item type's default constructor
+   draws the identity from the test] | push(x) with a ready-made lvalue x built as T(n, n+50) | the same with a
+   const lvalue built as T(n) | push(std::move(x)), x built as T(n) *)
+FormOrder == <<"one", "two", "zero", "copy", "cref", "move">>
+ASSUME Forms # {} /\ Forms \subseteq {FormOrder[i] : i \in 1..Len(FormOrder)}
+FormSeq == SelectSeq(FormOrder, LAMBDA f : f \in Forms)
+FormOf(n) == FormSeq[((n + shift) % Len(FormSeq)) + 1]
+
+(* an item: identity a (0: the token of queue<void> / no item), second constructor argument b, and the constructor
+   that built the original object ("-": not recorded, plain int) *)
+It(a, b, c) == [a |-> a, b |-> b, ctor |-> c]
+NoItem == It(0, 0, "-")
+(* what a direct T(args...) gives for the arguments of the n-th push *)
+Built(n) == LET f == FormOf(n) IN
+            It(n, IF f \in {"two", "copy"} THEN n + 50 ELSE 0,
+               CASE f = "zero" -> "0" [] f \in {"two", "copy"} -> "2" [] OTHER -> "1")
+
+NoHold == [pop |-> 0, v |-> NoItem]
 F(s, v) == [st |-> s, v |-> v]
 
 Init == /\ items = <<>>
@@ -43,15 +93,21 @@ Init == /\ items = <<>>
         /\ pc = [t \in Threads |-> "idle"]
         /\ hold = [t \in Threads |-> NoHold]
         /\ ret = [t \in Threads |-> "none"]
-        /\ npush = 0 /\ npop = 0 /\ nunb = 0 /\ nsize = 0
+        /\ npush = 0 /\ npop = 0 /\ nunb = 0 /\ nsize = 0 /\ nref = 0
         /\ destroyed = FALSE
+        /\ shift \in 0..(Len(FormSeq) - 1)
 
-Val(n) == IF Void THEN 0 ELSE n
+Val(n) == IF Void THEN NoItem ELSE IF Obj THEN Built(n) ELSE It(n, 0, "-")
 
-(* queue::push, queue.h:148-159: lock; if a consumer is parked take its promise out and leave the
-   critical section (the promise is resolved outside), else enqueue and return false *)
+ItemSlotFull == SingleItem /\ items # <<>>
+WaiterSlotFull == SingleWaiter /\ waiters # <<>>
+
+(* queue::push, queue.h:148-170: lock; if a consumer is parked build the item (queue.h:154), take the promise out and
+   leave the critical section (the promise is resolved outside with the item moved in), else build the item in the
+   item container (queue.h:166) and return false.  Either way the item is Val(n) = T(args...). *)
 PushCS(t) ==
     /\ ~destroyed /\ pc[t] = "idle" /\ npush < MaxPush
+    /\ waiters = <<>> => ~ItemSlotFull
     /\ npush' = npush + 1
     /\ IF waiters # <<>>
          THEN /\ hold' = [hold EXCEPT ![t] = [pop |-> Head(waiters), v |-> Val(npush + 1)]]
@@ -61,78 +117,103 @@ PushCS(t) ==
          ELSE /\ items' = Append(items, Val(npush + 1))
               /\ ret' = [ret EXCEPT ![t] = "false"]
               /\ UNCHANGED <<waiters, hold, pc>>
-    /\ UNCHANGED <<fut, npop, nunb, nsize, destroyed>>
+    /\ UNCHANGED <<fut, npop, nunb, nsize, destroyed, nref, shift>>
+
+(* push() onto an occupied single item slot: single_item_queue::emplace throws (queue.h:77, reached from queue.h:166)
+   before anything is constructed or stored; the lock is dropped by unwinding, the call fails with
+   std::runtime_error, the stored item stays *)
+PushRefused(t) ==
+    /\ ~destroyed /\ pc[t] = "idle" /\ nref < MaxRefuse
+    /\ waiters = <<>> /\ ItemSlotFull
+    /\ nref' = nref + 1
+    /\ ret' = [ret EXCEPT ![t] = "refused"]
+    /\ UNCHANGED <<items, waiters, fut, pc, hold, npush, npop, nunb, nsize, destroyed, shift>>
 
 (* a push whose item constructor throws (not twice in a row, to keep the model finite without a counter): whatever
    branch it would have taken - room or hand-over to a parked pop - NOTHING changes but the caller's result; in
-   particular the parked pop stays parked (since 3c3638a the item is built before the waiter is taken) *)
+   particular the parked pop stays parked (since 3c3638a the item is built before the waiter is taken).  On an
+   occupied single slot the constructor is not even reached (PushRefused). *)
 PushThrow(t) ==
     /\ AllowThrow /\ ~Void
     /\ ~destroyed /\ pc[t] = "idle" /\ ret[t] # "threw"
+    /\ waiters = <<>> => ~ItemSlotFull
     /\ ret' = [ret EXCEPT ![t] = "threw"]
-    /\ UNCHANGED <<items, waiters, fut, pc, hold, npush, npop, nunb, nsize, destroyed>>
+    /\ UNCHANGED <<items, waiters, fut, pc, hold, npush, npop, nunb, nsize, destroyed, nref, shift>>
 
-(* the promise call `p(args...)` after lk.unlock(), queue.h:152-153 *)
+(* the promise call `p(std::move(item))` after lk.unlock(), queue.h:157-158 *)
 PushResolve(t) ==
     /\ pc[t] = "push_resolve"
     /\ fut' = [fut EXCEPT ![hold[t].pop] = F("val", hold[t].v)]
     /\ ret' = [ret EXCEPT ![t] = "true"]
     /\ pc' = [pc EXCEPT ![t] = "idle"]
     /\ hold' = [hold EXCEPT ![t] = NoHold]
-    /\ UNCHANGED <<items, waiters, npush, npop, nunb, nsize, destroyed>>
+    /\ UNCHANGED <<items, waiters, npush, npop, nunb, nsize, destroyed, nref, shift>>
 
-(* queue::pop, queue.h:197-211: promise parked, or resolved (inside the lock) with the oldest item *)
+(* queue::pop, queue.h:207-221: promise parked, or resolved (inside the lock) with the oldest item *)
 PopCS(t) ==
     /\ ~destroyed /\ pc[t] = "idle" /\ npop < MaxPop
+    /\ items = <<>> => ~WaiterSlotFull
     /\ npop' = npop + 1
     /\ IF items = <<>>
          THEN /\ waiters' = Append(waiters, npop + 1)
-              /\ fut' = Append(fut, F("pending", 0))
+              /\ fut' = Append(fut, F("pending", NoItem))
               /\ UNCHANGED items
          ELSE /\ fut' = Append(fut, F("val", Head(items)))
               /\ items' = Tail(items)
               /\ UNCHANGED waiters
-    /\ UNCHANGED <<pc, hold, ret, npush, nunb, nsize, destroyed>>
+    /\ UNCHANGED <<pc, hold, ret, npush, nunb, nsize, destroyed, nref, shift>>
 
-(* queue::unblock_pop, queue.h:223-230 *)
+(* pop() on an empty queue whose single waiter slot is occupied: single_item_queue::emplace throws (queue.h:77, reached
+   from queue.h:211) before the new promise is stored; pop() fails with std::runtime_error, no future comes into
+   being, and the pop that is parked STAYS parked and pending *)
+PopRefused(t) ==
+    /\ ~destroyed /\ pc[t] = "idle" /\ nref < MaxRefuse
+    /\ items = <<>> /\ WaiterSlotFull
+    /\ nref' = nref + 1
+    /\ ret' = [ret EXCEPT ![t] = "refused"]
+    /\ UNCHANGED <<items, waiters, fut, pc, hold, npush, npop, nunb, nsize, destroyed, shift>>
+
+(* queue::unblock_pop, queue.h:233-240 *)
 UnblockCS(t) ==
     /\ ~destroyed /\ pc[t] = "idle" /\ nunb < MaxUnblock
     /\ nunb' = nunb + 1
     /\ IF waiters = <<>>
          THEN /\ ret' = [ret EXCEPT ![t] = "false"]
               /\ UNCHANGED <<waiters, hold, pc>>
-         ELSE /\ hold' = [hold EXCEPT ![t] = [pop |-> Head(waiters), v |-> 0]]
+         ELSE /\ hold' = [hold EXCEPT ![t] = [pop |-> Head(waiters), v |-> NoItem]]
               /\ waiters' = Tail(waiters)
               /\ pc' = [pc EXCEPT ![t] = "unblock_resolve"]
               /\ UNCHANGED ret
-    /\ UNCHANGED <<items, fut, npush, npop, nsize, destroyed>>
+    /\ UNCHANGED <<items, fut, npush, npop, nsize, destroyed, nref, shift>>
 
 UnblockResolve(t) ==
     /\ pc[t] = "unblock_resolve"
-    /\ fut' = [fut EXCEPT ![hold[t].pop] = F("exc", 0)]
+    /\ fut' = [fut EXCEPT ![hold[t].pop] = F("exc", NoItem)]
     /\ ret' = [ret EXCEPT ![t] = "true"]
     /\ pc' = [pc EXCEPT ![t] = "idle"]
     /\ hold' = [hold EXCEPT ![t] = NoHold]
-    /\ UNCHANGED <<items, waiters, npush, npop, nunb, nsize, destroyed>>
+    /\ UNCHANGED <<items, waiters, npush, npop, nunb, nsize, destroyed, nref, shift>>
 
-(* queue::size() / empty(): a critical section of their own (lock_guard), queue.h:162-170 *)
+(* queue::size() / empty(): a critical section of their own (lock_guard), queue.h:177-189 *)
 SizeCS(t) ==
     /\ ~destroyed /\ pc[t] = "idle" /\ nsize < MaxSize
     /\ nsize' = nsize + 1
     /\ ret' = [ret EXCEPT ![t] = "size" \o ToString(Len(items))]
-    /\ UNCHANGED <<items, waiters, fut, pc, hold, npush, npop, nunb, destroyed>>
+    /\ UNCHANGED <<items, waiters, fut, pc, hold, npush, npop, nunb, destroyed, nref, shift>>
 
 (* ~queue: parked promises are destroyed => their futures resolve to no-value *)
 Destroy ==
     /\ AllowDestroy /\ ~destroyed
     /\ \A t \in Threads : pc[t] = "idle"
     /\ destroyed' = TRUE
-    /\ fut' = [i \in 1..Len(fut) |-> IF \E k \in 1..Len(waiters) : waiters[k] = i THEN F("canceled", 0) ELSE fut[i]]
+    /\ fut' = [i \in 1..Len(fut) |-> IF \E k \in 1..Len(waiters) : waiters[k] = i THEN F("canceled", NoItem) ELSE fut[i]]
     /\ waiters' = <<>>
     /\ items' = <<>>
-    /\ UNCHANGED <<pc, hold, ret, npush, npop, nunb, nsize>>
+    /\ UNCHANGED <<pc, hold, ret, npush, npop, nunb, nsize, nref, shift>>
 
-Next == \/ \E t \in Threads : PushCS(t) \/ PushThrow(t) \/ PushResolve(t) \/ PopCS(t) \/ UnblockCS(t) \/ UnblockResolve(t) \/ SizeCS(t)
+Next == \/ \E t \in Threads : \/ PushCS(t) \/ PushRefused(t) \/ PushThrow(t) \/ PushResolve(t)
+                              \/ PopCS(t) \/ PopRefused(t)
+                              \/ UnblockCS(t) \/ UnblockResolve(t) \/ SizeCS(t)
         \/ Destroy
 
 Spec == Init /\ [][Next]_vars /\ WF_vars(\E t \in Threads : PushResolve(t) \/ UnblockResolve(t))
@@ -146,14 +227,20 @@ ValOf(i) == fut[i].v
 
 TypeOK == /\ Len(fut) = npop
           /\ \A i \in 1..Len(waiters) : waiters[i] \in 1..npop
+          /\ nref \in 0..MaxRefuse
+          /\ (nref > 0 => SingleItem \/ SingleWaiter)
 
 (* item queue and waiting-consumer queue are never both non-empty *)
 NeverBothNonEmpty == items # <<>> => waiters = <<>>
 
-(* where is value v?  in the item queue, in flight in a pusher's hands, or delivered *)
-Occ(v) == Cardinality({i \in 1..Len(items) : items[i] = v})
-          + Cardinality({t \in Threads : pc[t] = "push_resolve" /\ hold[t].v = v})
-          + Cardinality({i \in 1..Len(fut) : HasVal(i) /\ ValOf(i) = v})
+(* a single slot holds at most one element: nothing is stored over an element that is there *)
+SlotCapacity == /\ SingleItem => Len(items) <= 1
+                /\ SingleWaiter => Len(waiters) <= 1
+
+(* where is the item with identity v?  in the item queue, in flight in a pusher's hands, or delivered *)
+Occ(v) == Cardinality({i \in 1..Len(items) : items[i].a = v})
+          + Cardinality({t \in Threads : pc[t] = "push_resolve" /\ hold[t].v.a = v})
+          + Cardinality({i \in 1..Len(fut) : HasVal(i) /\ ValOf(i).a = v})
 
 ExactlyOnceDelivery ==
     ~destroyed =>
@@ -161,13 +248,20 @@ ExactlyOnceDelivery ==
         THEN Occ(0) = npush            \* counting semaphore: count conserved
         ELSE \A v \in 1..npush : Occ(v) = 1
 
+(* the item that is stored / in flight / delivered is the item that was pushed - T(args...) of the arguments of that
+   push - whichever branch the push took (stored or handed over) and whichever argument form it used *)
+ValueIntact ==
+    /\ \A i \in 1..Len(items) : items[i] = Val(items[i].a)
+    /\ \A i \in 1..Len(fut) : HasVal(i) => ValOf(i) = Val(ValOf(i).a)
+    /\ \A t \in Threads : pc[t] = "push_resolve" => hold[t].v = Val(hold[t].v.a)
+
 (* delivered values are ordered like the pops that received them: for a single consumer this is
    exactly push order; for several consumers it implies per-producer order per consumer *)
 DeliveredInOrder ==
-    ~Void => \A i, j \in 1..Len(fut) : (i < j /\ HasVal(i) /\ HasVal(j)) => ValOf(i) < ValOf(j)
+    ~Void => \A i, j \in 1..Len(fut) : (i < j /\ HasVal(i) /\ HasVal(j)) => ValOf(i).a < ValOf(j).a
 
 (* items still queued are newer than everything delivered or in flight, and sorted *)
-ItemsSorted == ~Void => \A i, j \in 1..Len(items) : i < j => items[i] < items[j]
+ItemsSorted == ~Void => \A i, j \in 1..Len(items) : i < j => items[i].a < items[j].a
 
 (* a parked pop is pending; waiting pops are served oldest first: every parked pop is younger than
    no unparked pending pop (an unparked pending pop is one in a resolver's hands) *)
